@@ -71,6 +71,10 @@ type TPara struct {
 	// Block only: the container (div / ul) it is a child of has break-inside: avoid / one of the
 	// containers around that one has
 	AvoidParent, AvoidAnc bool
+	// Block only: that container is a child of the body and no box of the document has
+	// break-before / break-after: avoid (no layout that kept the container is discarded by a
+	// rewind to an earlier break or by the cancellation of a container around it)
+	AvoidPlain bool
 }
 
 const (
@@ -515,6 +519,10 @@ func (g *tgen) node(depth int) *TNode {
 	if g.oof != 0 && depth <= 1 && r.Chance(1, 3*g.oof) {
 		return g.avoidOofNode(depth)
 	}
+	if g.oof != 0 && depth == 0 && !g.avoidy && r.Chance(1, g.oof) {
+		// among the children of the body, in documents where nothing rewinds to an earlier break
+		return g.avoidOofNode(depth)
+	}
 	if g.oof != 0 && r.Chance(1, g.oof) {
 		return g.oofNode()
 	}
@@ -888,7 +896,7 @@ func (d *TextDoc) Index() {
 		}
 		p.Anc = append([]int{}, anc...)
 		p.Role = role
-		p.Block, p.AvoidParent, p.AvoidAnc = false, false, false
+		p.Block, p.AvoidParent, p.AvoidAnc, p.AvoidPlain = false, false, false, false
 		byID[p.ID] = p
 		items(p.Items, append(append([]int{}, anc...), p.ID))
 	}
@@ -900,8 +908,9 @@ func (d *TextDoc) Index() {
 		}
 		return false
 	}
-	var node func(n *TNode, parentAvoid, ancAvoid bool)
-	node = func(n *TNode, parentAvoid, ancAvoid bool) {
+	avoidBetween := strings.Contains(d.HTML(), "break-before:avoid") || strings.Contains(d.HTML(), "break-after:avoid")
+	var node func(n *TNode, parentAvoid, ancAvoid bool, depth int)
+	node = func(n *TNode, parentAvoid, ancAvoid bool, depth int) {
 		switch n.Kind {
 		case NPara:
 			role := "root"
@@ -917,9 +926,10 @@ func (d *TextDoc) Index() {
 			para(n.Para, nil, role)
 			n.Para.Block = true
 			n.Para.AvoidParent, n.Para.AvoidAnc = parentAvoid, ancAvoid
+			n.Para.AvoidPlain = parentAvoid && depth == 1 && !avoidBetween
 		case NDiv, NList:
 			for _, k := range n.Kids {
-				node(k, hasAvoid(n), parentAvoid || ancAvoid)
+				node(k, hasAvoid(n), parentAvoid || ancAvoid, depth+1)
 			}
 		case NTable:
 			for _, c := range n.Head {
@@ -936,7 +946,7 @@ func (d *TextDoc) Index() {
 		}
 	}
 	for _, n := range d.Nodes {
-		node(n, false, false)
+		node(n, false, false, 0)
 	}
 	// the list by id points into the tree (a document read from JSON has copies there)
 	for i, p := range d.Paras {
